@@ -463,6 +463,46 @@ func (w *World) registerHTTPIntrinsics() {
 	// url.Parse: concrete input is parsed natively; otherwise every field of the
 	// result is an uninterpreted function of the input string (the parser
 	// differential Go vs browser is not decided by this machinery)
+	I["net/url.ParseRequestURI"] = func(e *Exec, fn *ssa.Function, a []Value) Value {
+		sv, ok := a[0].(*Term).strVal()
+		if !ok {
+			e.unsupported("url.ParseRequestURI on a symbolic string")
+		}
+		u, err := url.ParseRequestURI(sv)
+		if err != nil {
+			return tuple(&Pointer{}, e.newError("parse error"))
+		}
+		t := e.errorsPkgType("net/url", "URL")
+		st := under(t).(*types.Struct)
+		val := e.zero(t).(*StructVal)
+		fs := make([]Value, len(val.fields))
+		copy(fs, val.fields)
+		for i := 0; i < st.NumFields(); i++ {
+			switch st.Field(i).Name() {
+			case "Scheme":
+				fs[i] = mkStr(u.Scheme)
+			case "Opaque":
+				fs[i] = mkStr(u.Opaque)
+			case "Host":
+				fs[i] = mkStr(u.Host)
+			case "Path":
+				fs[i] = mkStr(u.Path)
+			case "RawPath":
+				fs[i] = mkStr(u.RawPath)
+			case "RawQuery":
+				fs[i] = mkStr(u.RawQuery)
+			case "Fragment":
+				fs[i] = mkStr(u.Fragment)
+			case "RawFragment":
+				fs[i] = mkStr(u.RawFragment)
+			case "ForceQuery":
+				fs[i] = mkBool(u.ForceQuery)
+			case "OmitHost":
+				fs[i] = mkBool(u.OmitHost)
+			}
+		}
+		return tuple(&Pointer{obj: e.newObject(t, &StructVal{fs}, "url")}, nilIface)
+	}
 	I["net/url.Parse"] = func(e *Exec, fn *ssa.Function, a []Value) Value {
 		s := a[0].(*Term)
 		t := e.errorsPkgType("net/url", "URL")
